@@ -264,7 +264,7 @@ func (m *Monitor) AfterMigrate(op Op, pm *preMig, pre, post *Snap, err error) {
 		if pm.usedBefore[x] {
 			sig := "C14:once:history"
 			if h.imported {
-				sig = "C14:restart:reused"
+				sig = "C14:restart:regression:reused"
 			}
 			m.fail(sig, fmt.Sprintf("migration accepted although address %d took part in an earlier accepted migration of this history (imported genesis: %v; its record is not in the store): %s", h.id(x), h.imported, role))
 		}
@@ -641,7 +641,7 @@ func (m *Monitor) AfterImport(op Op, pre, post *Snap) {
 	for _, r := range pre.Recs {
 		if !have[r.A] {
 			m.h.tags["import-lost-record"] = true
-			m.fail("C14:restart:records-lost", fmt.Sprintf("after export + InitChain of the exported genesis the migration record of address %d (flag %d, other %d) is gone: %d records before, %d after", r.A, r.Flag, r.Other, len(pre.Recs), len(post.Recs)))
+			m.fail("C14:restart:regression", fmt.Sprintf("after export + InitChain of the exported genesis the migration record of address %d (flag %d, other %d) is gone: %d records before, %d after", r.A, r.Flag, r.Other, len(pre.Recs), len(post.Recs)))
 			return
 		}
 	}
